@@ -394,11 +394,88 @@ func Describe(v reflect.Value) string {
 	return s
 }
 
-func describeIface(v reflect.Value) any {
-	if v.Kind() == reflect.Pointer && !v.IsNil() {
-		return describeIface(v.Elem())
+func describeIface(v reflect.Value) any { return Render(v) }
+
+// Render is a canonical, address-free rendering of a value (pointers are
+// followed, map keys sorted, times by instant and offset).
+func Render(v reflect.Value) string {
+	var sb strings.Builder
+	render(&sb, v)
+	return sb.String()
+}
+
+func render(sb *strings.Builder, v reflect.Value) {
+	t := v.Type()
+	if t == timeType {
+		x := v.Interface().(time.Time)
+		_, off := x.Zone()
+		if x.IsZero() {
+			sb.WriteString("time(zero)")
+		} else {
+			fmt.Fprintf(sb, "time(%d,%d)", x.UnixNano(), off)
+		}
+		return
 	}
-	return v.Interface()
+	switch t.Kind() {
+	case reflect.Pointer:
+		if v.IsNil() {
+			sb.WriteString("nil")
+			return
+		}
+		sb.WriteByte('&')
+		render(sb, v.Elem())
+	case reflect.Struct:
+		sb.WriteByte('{')
+		for i := 0; i < t.NumField(); i++ {
+			if i > 0 {
+				sb.WriteByte(' ')
+			}
+			sb.WriteString(t.Field(i).Name)
+			sb.WriteByte(':')
+			render(sb, v.Field(i))
+		}
+		sb.WriteByte('}')
+	case reflect.Slice:
+		if t.Elem().Kind() == reflect.Uint8 {
+			fmt.Fprintf(sb, "%x", v.Bytes())
+			return
+		}
+		sb.WriteByte('[')
+		for i := 0; i < v.Len(); i++ {
+			if i > 0 {
+				sb.WriteByte(' ')
+			}
+			render(sb, v.Index(i))
+		}
+		sb.WriteByte(']')
+	case reflect.Array:
+		sb.WriteByte('[')
+		for i := 0; i < v.Len(); i++ {
+			if i > 0 {
+				sb.WriteByte(' ')
+			}
+			render(sb, v.Index(i))
+		}
+		sb.WriteByte(']')
+	case reflect.Map:
+		keys := v.MapKeys()
+		sort.Slice(keys, func(i, j int) bool { return keys[i].String() < keys[j].String() })
+		sb.WriteString("map[")
+		for i, k := range keys {
+			if i > 0 {
+				sb.WriteByte(' ')
+			}
+			fmt.Fprintf(sb, "%q:", k.String())
+			render(sb, v.MapIndex(k))
+		}
+		sb.WriteByte(']')
+	case reflect.String:
+		fmt.Fprintf(sb, "%q", v.String())
+	case reflect.Float32, reflect.Float64:
+		fmt.Fprintf(sb, "%x", math.Float64bits(v.Float()))
+	default:
+		fmt.Fprintf(sb, "%v", v.Interface())
+	}
 }
 
 // ---------------------------------------------------------------------------
